@@ -17,6 +17,33 @@ def c06(tier):
                  "verif-tag bridge tests in cmd/go-critic and cmd/gocritic, analyzer.VerifFilter hook"])
 
 
+CRASH_TRUSTED = [
+    "goast2m converter (harness/internal/corpus/convert.go): decides which model term a real file becomes; cross-checked by wf evaluated on every converted file and by the warning-list comparison",
+    "go/parser, go/types (their facts are inputs of the model), go/scanner (independent token-start pass of the C07 oracle)",
+    "all checkers that are not modelled (the 40 rule-based ones, the ruleguard/gogrep engine, go/printer, astfmt, the remaining hand-written checkers) are observed by the implementation-level oracle only",
+]
+CRASH_ASSUME = [
+    "the theorems quantify over model files satisfying wf; wf is an executable predicate that is evaluated on every converted real file (S1 testdata, S2 stress packages, S3 mutants) in the same run",
+    "termination of the modelled checkers is Coq's structural-recursion guard; wall-clock bounds of the real code are only monitored (10 s watchdog per Check call)",
+    "one oracle run is shared by C01, C07 and C20 and cached per (tier, seed, harness binary, corpus) under work/crashrun",
+]
+
+
+def c01(tier):
+    vlib.standard("C01", tier, "c01", CRASH_COQ + ["Properties_C01.v"], assume=CRASH_ASSUME, trusted=CRASH_TRUSTED)
+
+
+def c07(tier):
+    vlib.standard("C07", tier, "c07", CRASH_COQ + ["Properties_C07.v"], assume=CRASH_ASSUME, trusted=CRASH_TRUSTED)
+
+
+def c20(tier):
+    vlib.standard("C20", tier, "c20", CRASH_COQ + ["Properties_C20.v"], assume=CRASH_ASSUME, trusted=CRASH_TRUSTED)
+
+
+CRASH_COQ = ["Proofs_Checkers.v", "Proofs_Witnesses.v"]
+
+
 def c16(tier):
     vlib.standard(
         "C16", tier, "c16", ["Properties_C16.v", "Proofs_Cli.v"],
@@ -115,7 +142,12 @@ def c09(tier):
         trusted=["translator vh gen suggest (Suggest templates and wildcard runs of rulesdata.PrecompiledRules)", "go/parser, go/types (source importer), astutil.PathEnclosingInterval as references"])
 
 
-CHECKS = {"C04": c04, "C06": c06, "C08": c08, "C09": c09, "C14": c14, "C17": c17, "C18": c18, "C15": c15, "C16": c16, "C19": c19}
+
+
+import re as _re
+
+# every function named cNN above is the check of property CNN (no shared table to edit)
+CHECKS = {n.upper(): f for n, f in list(globals().items()) if _re.fullmatch(r"c\d\d", n) and callable(f)}
 
 
 def run(prop, tier):
